@@ -335,40 +335,55 @@ def build(E):
 
     # ---------------- wiring (syntactic obligations on the real AST) -----------------------
     def wiring_start_server(E):
-        mod, _, fn = E.repo.find("nauyaca.server.server:start_server")
-        src = ast.unparse(fn)
-        want = [
-            "if access_control_config:",
-            "access_control = AccessControl(access_control_config)",
-            "middlewares.append(access_control)",
-            "middleware_chain = MiddlewareChain(middlewares) if middlewares else None",
-        ]
-        missing = [w for w in want if w not in src]
-        protos = [n for n in ast.walk(fn) if isinstance(n, ast.Call) and isinstance(n.func, ast.Name) and n.func.id == "GeminiServerProtocol"]
-        bad = [ast.unparse(c) for c in protos if not (len(c.args) >= 2 and isinstance(c.args[1], ast.Name) and c.args[1].id == "middleware_chain")]
-        ok = not missing and not bad and len(protos) >= 2
-        return ok, "start_server builds AccessControl(access_control_config) into the chain handed to both protocol factories" if ok else f"missing {missing}; protocol constructions without the chain: {bad}; constructions found: {len(protos)}"
+        from contracts.wiring import chain_wiring
+        return chain_wiring(E, {"AccessControl": "access_control_config"})
     spec.syntactic.append(("start_server puts AccessControl(config) into the chain of every protocol instance", wiring_start_server))
 
     def wiring_cli(E):
         mod = E.repo.module("nauyaca.__main__")
         calls = [n for n in ast.walk(mod.tree) if isinstance(n, ast.Call) and isinstance(n.func, ast.Name) and n.func.id == "start_server"]
-        ok = bool(calls)
+        if not calls:
+            raise Unsupported("the CLI does not call start_server")
+        bad = []
         for c in calls:
-            kws = {k.arg: ast.unparse(k.value) for k in c.keywords}
-            if kws.get("access_control_config") != "config.get_access_control_config()":
-                ok = False
-        return ok, f"{len(calls)} start_server call(s) in the CLI pass access_control_config=config.get_access_control_config()" if ok else "CLI does not pass config.get_access_control_config() to start_server"
+            v = {k.arg: k.value for k in c.keywords}.get("access_control_config")
+            cfg = c.args[0] if c.args else None
+            # <the ServerConfig handed to start_server>.get_access_control_config(), whatever the variable is called
+            if not (isinstance(v, ast.Call) and isinstance(v.func, ast.Attribute) and v.func.attr == "get_access_control_config" and not v.args and not v.keywords
+                    and cfg is not None and ast.dump(v.func.value) == ast.dump(cfg)):
+                bad.append(f"line {c.lineno}: access_control_config={ast.unparse(v) if v is not None else 'missing'}")
+        return not bad, f"{len(calls)} start_server call(s) in the CLI pass access_control_config=<config>.get_access_control_config() of the config they start" if not bad else "; ".join(bad)
     spec.syntactic.append(("CLI hands ServerConfig.get_access_control_config() to start_server", wiring_cli))
 
     def wiring_toml(E):
         mod, cls, fn = E.repo.find(f"{CFG}.from_toml")
-        src = ast.unparse(fn)
-        want = ["enable_access_control=access_control.get('enabled', True)", "access_control_allow_list=access_control.get('allow_list')",
-                "access_control_deny_list=access_control.get('deny_list')", "access_control_default_allow=access_control.get('default_allow', True)",
-                "access_control = data.get('access_control', {})"]
-        missing = [w for w in want if w not in src]
-        return not missing, "from_toml copies [access_control] enabled/allow_list/deny_list/default_allow verbatim" if not missing else f"missing {missing}"
+        want = {"enable_access_control": ("enabled", True), "access_control_allow_list": ("allow_list", None),
+                "access_control_deny_list": ("deny_list", None), "access_control_default_allow": ("default_allow", True)}
+        ctor = [n for n in ast.walk(fn) if isinstance(n, ast.Call) and isinstance(n.func, ast.Name) and n.func.id == "cls"]
+        if len(ctor) != 1:
+            raise Unsupported(f"from_toml has {len(ctor)} cls(...) constructions")
+        kws = {k.arg: k.value for k in ctor[0].keywords}
+        bad, tables = [], set()
+        for kw, (key, default) in want.items():
+            v = kws.get(kw)
+            okv = (isinstance(v, ast.Call) and isinstance(v.func, ast.Attribute) and v.func.attr == "get" and isinstance(v.func.value, ast.Name) and v.args
+                   and isinstance(v.args[0], ast.Constant) and v.args[0].value == key and not v.keywords
+                   and ((len(v.args) == 1 and default is None) or (len(v.args) == 2 and isinstance(v.args[1], ast.Constant) and v.args[1].value is default)))
+            if not okv:
+                bad.append(f"{kw}={ast.unparse(v) if v is not None else 'missing'}")
+            else:
+                tables.add(v.func.value.id)
+        if len(tables) == 1:
+            t = tables.pop()
+            binds = [n for n in ast.walk(fn) if isinstance(n, ast.Assign) and any(isinstance(x, ast.Name) and x.id == t for x in n.targets)]
+            okb = (len(binds) == 1 and isinstance(binds[0].value, ast.Call) and isinstance(binds[0].value.func, ast.Attribute) and binds[0].value.func.attr == "get"
+                   and len(binds[0].value.args) == 2 and isinstance(binds[0].value.args[0], ast.Constant) and binds[0].value.args[0].value == "access_control"
+                   and isinstance(binds[0].value.args[1], ast.Dict) and not binds[0].value.args[1].keys)
+            if not okb:
+                bad.append(f"{t} is not bound once to <document>.get('access_control', {{}})")
+        elif not bad:
+            bad.append(f"the four settings are read from different tables {sorted(tables)}")
+        return not bad, "from_toml copies [access_control] enabled/allow_list/deny_list/default_allow verbatim (defaults True/None/None/True)" if not bad else "; ".join(bad)
     spec.syntactic.append(("from_toml copies the [access_control] table field by field", wiring_toml))
 
     spec.trusted = [
